@@ -1,5 +1,12 @@
 package props
 
-import "os"
+import (
+	"math/big"
+	"os"
+)
+
+func bigInt(v int64) *big.Int { return big.NewInt(v) }
 
 func removeAll(dir string) { _ = os.RemoveAll(dir) }
+
+var bigOne = bigInt(1)
